@@ -7,6 +7,14 @@ ids = [json.loads(l)["id"] for l in open(os.path.join(HERE, "properties.jsonl"))
 TECH = "bounded model checking of the real code: Kani 0.68 -> CBMC 6.11 (cadical SAT); symbolic inputs, concrete sizes, unwinding assertions on; counterexamples replayed natively"
 
 CLAIMED = {
+ "C14": dict(
+   text="The same program is expanded by the real macros in three declaration orders (methods of the impl, methods of the interface trait, #[sv::messages] and #[sv::override_entry_point] attributes permuted: written, reversed, rotated). CBMC decides differentially, over symbolic inputs: published name lists identical; every received 2-byte name accepted by the same message types; equal messages serialise to equal events; the same exec/sudo/instantiate/migrate message through each twin's entry point runs the same handler with the same arguments and outcome; a reply for a shared handler name (success method with #[sv::data] + error method, in either order) and for a solo name reaches the same method with the same arguments (only id constants differ). That every order is ACCEPTED with the same set of entry points is the compile gate -- it found the data-parameter merge defect (fixed).",
+   note="3 of n! permutations sampled; query results compared per order in C02 only; stubs: Backtrace::capture, fmt::format",
+   ref="§3 C14"),
+ "C17": dict(
+   text="CBMC decides, through the derived (de)serialisers of corpus `attrs`: #[sv::msg_attr(kind, serde(deny_unknown_fields))] forwarded to exec and migrate (contract) and to query (interface) makes exactly those three of seven generated types reject a body with an unknown key (symbolic values); #[sv::attr(serde(rename=\"zz\"))] on one handler makes exactly that variant answer to `zz` (received names of length 2..5 with symbolic bytes: accepted set = {zz, args, other}; `ren` is not accepted) and serialise under it; #[serde(default)] / #[serde(rename=\"k\")] written on handler arguments make that field optional / keyed `k` (6 body layouts, symbolic values).",
+   note="attributes without run-time effect (derives, docs) are token-level facts outside the claim; contract-level routing of a variant renamed through sv::attr is outside (the published list keeps the method name; see DESIGN §6); JSON text layer outside",
+   ref="§3 C17"),
  "C10": dict(
    text="CBMC decides, for every generated Executor helper of corpus `basic` (5 contract methods through a contract-typed handle; interface methods through dyn-Interface and contract-typed handles) with ALL argument values symbolic: the helper yields an execute message addressed to the handle's address, carrying the funds set on the builder (symbolic amount), whose body is -- at the serde data-model level, recorded by replacing to_json_binary -- exactly the message {method: {args}} of that same method (C01 oracle), whose name is in the target's published list (routable, C03); the generated instantiate helper + InstantiateBuilder give code id, flat arguments, admin, label (empty when unset) and funds; Remote::executor / update_admin / clear_admin keep the (symbolic) address.",
    note="JSON text of the body outside (to_json_binary intercepted by the facade); the QUERY helper is outside (QuerierWrapper serialises / parses text: DESIGN P5); build2 (feature cosmwasm_1_2) outside; address content is symbolic on Remote->builder and builder->message but concrete through the generated helper (read-back does not finish); program dimension sampled",
